@@ -332,6 +332,15 @@ func (r *Run) Sample(s any) {
 	r.mu.Unlock()
 }
 
+// NoteMax keeps the maximum of a named measurement in the evidence.
+func (r *Run) NoteMax(key string, v int64) {
+	r.mu.Lock()
+	if old, ok := r.Extra[key].(int64); !ok || v > old {
+		r.Extra[key] = v
+	}
+	r.mu.Unlock()
+}
+
 func (r *Run) HarnessError(s string) {
 	r.mu.Lock()
 	r.harnessErr = append(r.harnessErr, s)
